@@ -264,3 +264,65 @@ func HProposalRejected() {
 		vr.Assert("c11.rejected", err != nil && k == nil)
 	}
 }
+
+// HProposalRoundTrip (C11): the algorithms an SA advertises through its proposal survive the wire and
+// convert back to the same descriptors.  Params: ike (1) / child (0), encr idx, integ idx, prf idx (ike) or
+// esn idx (child), dh idx (child: 2 = none).
+func HProposalRoundTrip() {
+	ike, ei, ii, pi, di := vr.Param(0), vr.Param(1), vr.Param(2), vr.Param(3), vr.Param(4)
+	wire := func(p *message.Proposal) *message.Proposal {
+		sa := &message.SecurityAssociation{Proposals: message.ProposalContainer{p}}
+		b, err := sa.Marshal()
+		vr.Assert("c11.proposal.marshal", err == nil)
+		d := new(message.SecurityAssociation)
+		err = d.Unmarshal(b)
+		vr.Assert("c11.proposal.unmarshal", err == nil && len(d.Proposals) == 1)
+		if err != nil || len(d.Proposals) != 1 {
+			return p
+		}
+		return d.Proposals[0]
+	}
+	if ike == 1 {
+		k := &IKESAKey{DhInfo: dh.StrToType(vDhNames[di]), EncrInfo: encr.StrToType(vEncrNames[ei]),
+			IntegInfo: integ.StrToType(vIntegNames[ii]), PrfInfo: prf.StrToType(vPrfNames[pi])}
+		p, err := k.ToProposal()
+		vr.Assert("c11.proposal.noerr", err == nil && p != nil)
+		if err != nil || p == nil {
+			return
+		}
+		vr.Assert("c11.proposal.shape", p.ProtocolID == message.TypeIKE && len(p.EncryptionAlgorithm) == 1 && len(p.IntegrityAlgorithm) == 1 &&
+			len(p.PseudorandomFunction) == 1 && len(p.DiffieHellmanGroup) == 1 && len(p.ExtendedSequenceNumbers) == 0)
+		if len(p.EncryptionAlgorithm) != 1 || len(p.IntegrityAlgorithm) != 1 || len(p.PseudorandomFunction) != 1 || len(p.DiffieHellmanGroup) != 1 {
+			return
+		}
+		q := wire(p)
+		vr.Assert("c11.proposal.same", vr.All(encr.DecodeTransform(q.EncryptionAlgorithm[0]) == k.EncrInfo,
+			integ.DecodeTransform(q.IntegrityAlgorithm[0]) == k.IntegInfo, prf.DecodeTransform(q.PseudorandomFunction[0]) == k.PrfInfo,
+			dh.DecodeTransform(q.DiffieHellmanGroup[0]) == k.DhInfo))
+		return
+	}
+	es, err := esn.StrToType(vEsnNames[pi%2])
+	vr.Assert("c11.proposal.esn", err == nil)
+	c := &ChildSAKey{EncrKInfo: encr.StrToKType(vEncrNames[ei]), IntegKInfo: integ.StrToKType(vIntegNames[ii]), EsnInfo: es}
+	if di < 2 {
+		c.DhInfo = dh.StrToType(vDhNames[di])
+	}
+	p, err := c.ToProposal()
+	vr.Assert("c11.proposal.noerr", err == nil && p != nil)
+	if err != nil || p == nil {
+		return
+	}
+	wantDh := 0
+	if di < 2 {
+		wantDh = 1
+	}
+	vr.Assert("c11.proposal.shape", p.ProtocolID == message.TypeESP && len(p.EncryptionAlgorithm) == 1 && len(p.IntegrityAlgorithm) == 1 &&
+		len(p.ExtendedSequenceNumbers) == 1 && len(p.DiffieHellmanGroup) == wantDh && len(p.PseudorandomFunction) == 0)
+	back, err := NewChildSAKeyByProposal(wire(p))
+	vr.Assert("c11.proposal.back.noerr", err == nil && back != nil)
+	if err != nil || back == nil {
+		return
+	}
+	vr.Assert("c11.proposal.same", vr.All(back.EncrKInfo == c.EncrKInfo, back.IntegKInfo == c.IntegKInfo,
+		back.EsnInfo.GetNeedESN() == c.EsnInfo.GetNeedESN(), back.DhInfo == c.DhInfo))
+}
